@@ -3,7 +3,7 @@
 # namespace (scratch copies of /repo and /verif) and runs every property's quick check: all must stay quiet.
 set -u
 PATCH=$(readlink -f $1)
-BOX=/tmp/seedbox-harmless
+BOX=/tmp/seedbox-harmless${HARMLESS_BOX:-}
 mkdir -p $BOX/repo $BOX/verif
 rsync -a --delete --exclude target /repo/ $BOX/repo/
 rsync -a --delete --exclude .git --exclude replays /verif/ $BOX/verif/
